@@ -8,6 +8,22 @@ def model_type(em, name, nn):
     r = std_trait_type(em, name, nn)
     if r is not None:
         return r
+    m = re.match(r'^unique_ptr<(.*)>$', nn)
+    if m:
+        # M-mem: std::unique_ptr<T> / <T[]> as an owning raw pointer
+        a0 = em._split_targs(name)[0]
+        t0 = T.parse(a0)
+        if t0[0] == 'a':
+            t0 = t0[1]
+        em.lowerings['M-mem(unique_ptr type -> owning pointer)'] += 1
+        return ('p', em.resolve(t0), frozenset())
+    if re.match(r'^(basic_string<char|string$)', nn):
+        em.lowerings['M-mem(std::string type)'] += 1
+        if 'M_string' not in em.struct_defs:
+            em.struct_defs['M_string'] = 'struct M_string { const char *src; unsigned long len; }; /* M-mem: std::string as (source pointer, length) of its constructing call */'
+            em.rec_order.append('M_string')
+            em.used_records['M_string'] = ('modelx', 'std::string')
+        return 'struct M_string'
     if re.match(r'^(integer_sequence|index_sequence|make_index_sequence)<', nn):
         # empty library tag types (only their type matters, clang already used it to expand the pack)
         if 'M_empty_tag' not in em.struct_defs:
@@ -226,6 +242,18 @@ def operator_call(em, n, rd, args):
         if st is not None:
             em.lowerings['M-callable(parameter %s -> contract stub)' % st] += 1
             return '%s(%s)' % (st, ', '.join(em.E(a) for a in args[1:]))
+    if args and norm_name(T.type_str(T.strip_quals(T.strip_ref(T.parse(qt(args[0])))))).startswith('unique_ptr<'):
+        nm_ = rd.get('name')
+        em.lowerings['M-mem(unique_ptr %s)' % nm_] += 1
+        if nm_ == 'operator*' and len(args) == 1:
+            return '(*%s)' % em.E(args[0])
+        if nm_ == 'operator[]' and len(args) == 2:
+            return '((%s)[%s])' % (em.E(args[0]), em.E(args[1]))
+        if nm_ in ('operator==', 'operator!=') and len(args) == 2:
+            return '((%s) %s (%s))' % (em.E(args[0]), nm_[8:], em.E(args[1]) if 'nullptr' not in (qt(args[1]) or '') else '0')
+        if nm_ == 'operator=' and len(args) == 2:
+            return '(%s = %s)' % (em.E(args[0]), em.E(args[1]))
+        raise ExtractError('unmodelled unique_ptr operator ' + str(nm_))
     if rd.get('name') in ('operator==', 'operator!=') and len(args) == 2 and _is_vecit(em, args[0]) and _is_vecit(em, args[1]):
         em.lowerings['M-vec(iterator compare)'] += 1
         return '((%s).idx %s (%s).idx)' % (em.E(args[0]), rd['name'][8:], em.E(args[1]))
@@ -279,6 +307,13 @@ def member_call(em, n, callee, obj, args, rd):
             e = em.E(args[0])
             return '((%s == %s) ? (%s = %s, (_Bool)1) : (%s = %s, (_Bool)0))' % (o, e, o, em.E(args[1]), e, o)
         raise ExtractError('unmodelled atomic member ' + str(nm))
+    if on.startswith('unique_ptr<'):
+        em.lowerings['M-mem(unique_ptr.%s)' % nm] += 1
+        if nm == 'get' and not args:
+            return '(%s)' % o
+        if nm == 'release' and not args:
+            return '(%s)' % o
+        raise ExtractError('unmodelled unique_ptr member ' + str(nm))
     if _is_vec(em, obj):
         em.lowerings['M-vec(%s)' % nm] += 1
         if nm == 'begin' and not args:
@@ -404,7 +439,7 @@ def indirect_call(em, n, callee_e, args):
                 ft = ft[1]
             out = []
             for a, pt in zip(args, ft[2]):
-                out.append('&(%s)' % em.E(a) if pt[0] == 'ref' else em.E(a))
+                out.append(em.addr(em.E(a)) if pt[0] == 'ref' else em.E(a))
             em.lowerings['M-callable(indirect call through %s -> recording stub)' % c['referencedDecl']['name']] += 1
             return '%s(%s)' % (stub, ', '.join(['(void *)(%s)' % em.E(c)] + out))
         return None
@@ -438,6 +473,33 @@ def construct(em, n, ii, rec):
     if rec is None and re.match(r'^(integer_sequence|index_sequence|make_index_sequence)<', norm_name(qt(n) or '')):
         em.resolve(T.parse(qt(n)))
         return '((struct M_empty_tag){ 0 })'
+    tn = norm_name(qt(n) or '')
+    if rec is None and tn.startswith('unique_ptr<'):
+        em.lowerings['M-mem(unique_ptr construction)'] += 1
+        t = em.ctype_of(qt(n))
+        if not ii:
+            return '((%s)0)' % em.cdecl(t)
+        a0 = ii[0]
+        an = norm_name(qt(a0) or '')
+        if len(ii) == 1 and (an.startswith('unique_ptr<') or 'nullptr_t' in an or an == 'decltype(nullptr)'):
+            if an.startswith('unique_ptr<'):
+                return '((%s)(%s))' % (em.cdecl(t), em.E(a0))      # move: ownership transfer
+            return '((%s)0)' % em.cdecl(t)
+        raise ExtractError('unmodelled unique_ptr constructor')
+    if rec is None and re.match(r'^(const)?(basic_string<char|string$)', tn.replace('const', '', 1) if tn.startswith('const') else tn):
+        em.resolve(T.parse('std::string'))
+        args_ = [a for a in ii if a.get('kind') != 'CXXDefaultArgExpr']
+        an = norm_name(qt(args_[0]) or '') if args_ else ''
+        em.lowerings['M-mem(std::string construction)'] += 1
+        if len(args_) == 1 and re.match(r'^(const)?(basic_string<char|string)', an):
+            return em.E(args_[0])                                    # copy / move
+        if len(args_) == 2:
+            em.extern_funcs['vstd_string_from'] = True
+            return 'vstd_string_from(%s, %s)' % (em.E(args_[0]), em.E(args_[1]))
+        if len(args_) == 1:
+            em.extern_funcs['vstd_string_cstr'] = True
+            return 'vstd_string_cstr(%s)' % em.E(args_[0])
+        raise ExtractError('unmodelled std::string constructor')
     if rec is None and len(ii) == 1 and norm_name(qt(n) or '').startswith('pair<'):
         try:
             same = norm_name(T.type_str(T.strip_quals(T.strip_ref(T.parse(qt(ii[0])))))) == norm_name(T.type_str(T.strip_quals(T.parse(qt(n)))))
